@@ -46,7 +46,7 @@ def gen(ctx):
     docs = qpool.DOCS + qpool.generated_docs(ctx.rng, 15 if ctx.tier == "quick" else 200)
     cases = []
     for t in texts:
-        for d in (docs if ctx.tier != "quick" else docs[:2] + ctx.rng.sample(docs[2:], 5)):
+        for d in docs[:2] + ctx.rng.sample(docs[2:], 5 if ctx.tier == "quick" else 18):
             cases.append({"text": t, "doc": d})
     return cases
 
